@@ -272,7 +272,9 @@ class Interp(ExprMixin, WhileMixin):
                 except Exception:
                     pass
             if is_gen:
-                env["__yield__"] = PyList([])
+                yl = PyList([])
+                yl.created_in = key  # yields inside loops are loop parts, not a fixed number of items
+                env["__yield__"] = yl
             try:
                 self.exec_block(fn.body, env, module)
                 v = NONE
@@ -655,6 +657,11 @@ class Interp(ExprMixin, WhileMixin):
         n = len(target.elts)
         has_star = any(isinstance(e, ast.Starred) for e in target.elts)
         v = self.resolve_alt(v)
+        if isinstance(v, PSlice):
+            # a, b, c = p : the production's symbols in order
+            for i in range(len(v.values)):
+                self.event("p_read", index=i)
+            v = PyTuple(list(v.values))
         if isinstance(v, (PyTuple, PyList)) and not (isinstance(v, PyList) and v.loop_parts):
             if (not has_star and len(v.items) != n) or (has_star and len(v.items) < n - 1):
                 self.event("unpack_mismatch", have=len(v.items), want=n)
